@@ -958,7 +958,7 @@ class Vector(Qube):
             elif vector._shape_:
                 compt._values_[clipping_mask] = upper._values_
             elif clipping_mask:
-                vector._values_[axis] = upper
+                vector._values_[axis] = upper._values_
 
             if remask:
                 mask = Qube.or_(mask, clipping_mask)
